@@ -2,6 +2,7 @@ import ClusterVerif.Lemmas.C05
 import ClusterVerif.Lemmas.C05R
 import ClusterVerif.Model.C05Source
 import ClusterVerif.Gen.C05
+import ClusterVerif.Lemmas.C05T
 
 /-!
 # C05 — each peer's IPFS pinset converges to what the shared pinset assigns to it
@@ -792,5 +793,102 @@ theorem gen_inventory_Optracker : Gen.Optracker.funcs =
     ["f_OperationTracker_String", "f_NewOperationTracker", "f_OperationTracker_TrackNewOperation", "f_OperationTracker_Clean", "f_OperationTracker_Status", "f_OperationTracker_SetError", "f_OperationTracker_unsafePinInfo", "f_OperationTracker_Get", "f_OperationTracker_GetExists", "f_OperationTracker_GetAll", "f_OperationTracker_CleanAllDone", "f_OperationTracker_OpContext", "f_OperationTracker_Filter", "f_OperationTracker_filterOps", "f_filterOpsMap", "f_filter"] := rfl
 theorem gen_inventory_Operation : Gen.Operation.funcs =
     ["f_NewOperation", "f_Operation_String", "f_Operation_Cid", "f_Operation_Context", "f_Operation_Cancel", "f_Operation_Phase", "f_Operation_SetPhase", "f_Operation_Error", "f_Operation_SetError", "f_Operation_Type", "f_Operation_Pin", "f_Operation_Timestamp", "f_Operation_Cancelled", "f_Operation_ToTrackerStatus", "f_Operation_StatusSnapshot", "f_trackerStatus", "f_TrackerStatusToOperationPhase"] := rfl
+
+
+/-! ### round 8b: SEMANTIC tie of the operation tracker — decision tables regenerated from the Go syntax tree (`Gen/C05T.lean`,
+    `harness/extract_c05t`), interpreted by `Model/C05T.lean`. Each theorem says: the table, executed, IS the model's function, for all
+    inputs. An edit of a guard, a case, a constant or an action of the Go function breaks the theorem; a rewrite that keeps the
+    decisions (reordered conjuncts, `!(a == b)` for `a != b`, if/else for early return) does not. -/
+
+/-- `TrackNewOperation` (existing op × new type × phase → nil | cancel-and-replace | create): the regenerated table, executed on the
+    model state, is `trackNew` — for every state, pin, type and initial phase. -/
+theorem gen_table_trackNew (s : State) (p : PinSpec) (typ : OpType) (ph : Phase) :
+    T.trackNewT Gen.Sem.trackNew s p typ ph = some (trackNew s p typ ph) := T.trackNewT_eq s p typ ph
+
+/-- `Clean` deletes the table entry only when it is this very operation (pointer test) — `retOk`'s table update. -/
+theorem gen_table_clean (s : State) (i : Nat) : T.cleanT Gen.Sem.clean s i = some (T.cleanM s i) := T.cleanT_eq s i
+
+/-- `applyPinF`, cancelled operation received: no IPFS call, the operation record untouched, `continue` (no Clean) — `startCall`'s skip;
+    otherwise phase := in-progress and exactly one call. -/
+theorem gen_table_applyPinF_start (s : State) (i : Nat) (k : CallKind) (e c1 : Bool) :
+    (startCall s i k).ops i =
+      (if (s.ops i).cancelled then T.runOp (T.applyT Gen.Sem.applyPinF true e c1) (s.ops i)
+       else T.runOp (T.beforeCall (T.applyT Gen.Sem.applyPinF false e c1)) (s.ops i)) ∧
+    (startCall s i k).calls.length = s.calls.length + T.callsIn (T.applyT Gen.Sem.applyPinF (s.ops i).cancelled e c1) :=
+  T.startCall_is_table s i k e c1
+
+/-- `applyPinF` after the call returned nil: `SetPhase(Done); Cancel()`, returns false so that `opWorker` calls `Clean` = the model's `retOk`. -/
+theorem gen_table_applyPinF_ok (s : State) (i : Nat) (k : Call) (c1 : Bool)
+    (hf : findCall s i = some k) (hc : (s.ops i).cancelled = false) (he : k.eff = true) :
+    (retOk s i).ops i = T.runOp (T.afterCall (T.applyT Gen.Sem.applyPinF false true c1)) (s.ops i) ∧
+    (retOk s i).cur = (T.cleanM s i).cur ∧ T.retOf (T.applyT Gen.Sem.applyPinF false true c1) = some false :=
+  ⟨(T.retOk_is_table s i k c1 hf hc he).1, (T.retOk_is_table s i k c1 hf hc he).2, (T.apply_ok c1).1⟩
+
+/-- ... after the call returned an error and the operation is not cancelled: `SetError; Cancel`, no Clean = `retErr`. -/
+theorem gen_table_applyPinF_err (s : State) (i : Nat) (k : Call)
+    (hf : findCall s i = some k) (hc : (s.ops i).cancelled = false) :
+    (retErr s i).ops i = T.runOp (T.afterCall (T.applyT Gen.Sem.applyPinF false false false)) (s.ops i) ∧
+    (retErr s i).cur = s.cur ∧ T.retOf (T.applyT Gen.Sem.applyPinF false false false) = some true :=
+  ⟨(T.retErr_is_table s i k hf hc).1, (T.retErr_is_table s i k hf hc).2, T.apply_err.1⟩
+
+/-- ... after the call returned an error because the operation was cancelled meanwhile: nothing is written, no Clean = `reap`. -/
+theorem gen_table_applyPinF_reap (s : State) (i : Nat) :
+    (reap s i).ops i = T.runOp (T.afterCall (T.applyT Gen.Sem.applyPinF false false true)) (s.ops i) ∧ (reap s i).cur = s.cur ∧
+    T.retOf (T.applyT Gen.Sem.applyPinF false false true) = some true :=
+  ⟨(T.reap_is_table s i).1, (T.reap_is_table s i).2, T.apply_reap.1⟩
+
+/-- `trackerStatus` (type × phase → TrackerStatus), every cell, is `opStatus`. -/
+theorem gen_table_trackerStatus (o : Op) :
+    T.statusT Gen.Sem.trackerStatus (T.Ty.ofOp o.typ) o.phase = some (opStatus o) := by
+  rw [T.opStatus_tp]; exact T.statusT_eq o.typ o.phase
+
+/-- `SetPhase` writes its argument, `SetError` writes `PhaseError`, `Cancel` cancels the context, `Cancelled` reads it. -/
+theorem gen_table_operation_methods (env : T.Atom → Bool) (b : Bool) :
+    (T.firstRow Gen.Sem.setPhase env).map T.phaseWrites = some [.setPhaseArg] ∧
+    (T.firstRow Gen.Sem.setError env).map T.phaseWrites = some [.setPhase .error] ∧
+    (T.firstRow Gen.Sem.cancel env).map (fun a => a.contains .cancelCtx) = some true ∧
+    (T.firstRow Gen.Sem.cancelled (T.envDone b)).bind T.retOf = some b :=
+  ⟨(T.setters_table env).1, (T.setters_table env).2.1, (T.setters_table env).2.2, T.cancelled_table b⟩
+
+/-- the switch of `recoverWithPinInfo` over ALL statuses is `recAction`, and the re-issued pin is the recorded one exactly when the
+    shared state could be read and has the pin (otherwise `api.PinCid`) = `recPin`. -/
+theorem gen_table_recoverWith (st : Status) (a b : Bool) :
+    T.recT Gen.Sem.recoverWith st a b = some ((recAction st).map (fun t => (t, t == .pin && a && b))) := T.recT_eq st a b
+
+/-- nothing in the tables is outside the translator's vocabulary (fail-closed marker `.unknown` absent) -/
+theorem gen_table_known :
+    (T.known Gen.Sem.trackNew && T.known Gen.Sem.clean && T.known Gen.Sem.applyPinF && T.known Gen.Sem.trackerStatus &&
+     T.known Gen.Sem.setPhase && T.known Gen.Sem.setError && T.known Gen.Sem.cancel && T.known Gen.Sem.cancelled &&
+     T.known Gen.Sem.recoverWith) = true := T.tables_known
+
+/-- the iota blocks: `PhaseError` is the zero value of `Phase`, `OperationUnknown` of `OperationType` -/
+theorem gen_table_consts :
+    Gen.Sem.phaseConsts = ["PhaseError", "PhaseQueued", "PhaseInProgress", "PhaseDone"] ∧
+    Gen.Sem.typeConsts = ["OperationUnknown", "OperationPin", "OperationUnpin", "OperationRemote", "OperationShard"] := ⟨rfl, rfl⟩
+
+/-- the alternative "dedupe also against an errored operation" (a realistic wrong edit of the guard) as a table: it is NOT `trackNew` —
+    a failing input is an errored pin entry re-tracked: the table answers nil, the code creates a new operation. -/
+def dedupeErroredTable : T.Table := [
+  { lits := [(.found, true), (.typeEq, true), (.phaseIs .done, false)], acts := [.lookup, .retNil] },
+  { lits := [(.found, true)], acts := [.lookup, .cancelOld, .newOp, .store, .retNew] },
+  { lits := [(.found, false)], acts := [.lookup, .newOp, .store, .retNew] } ]
+
+def erroredPinState : State :=
+  { init with ops := upd init.ops 0 { cid := 0, typ := .pin, phase := .error, cancelled := true, pin := pinCid 0 }, nextId := 1,
+              cur := upd init.cur 0 (some 0) }
+
+theorem wrong_guard_table_refuted :
+    ¬ (∀ s p typ ph, T.trackNewT dedupeErroredTable s p typ ph = some (trackNew s p typ ph)) := by
+  intro h
+  have h1 := h erroredPinState (pinCid 0) .pin .queued
+  have h2 : (T.trackNewT dedupeErroredTable erroredPinState (pinCid 0) .pin .queued).map (·.2) = some none := by decide
+  have h3 : (some (trackNew erroredPinState (pinCid 0) .pin .queued)).map (·.2) = some (some 1) := by decide
+  rw [h1] at h2; rw [h2] at h3; exact absurd h3 (by decide)
+
+example : T.trackNewT Gen.Sem.trackNew erroredPinState (pinCid 0) .pin .queued = some (trackNew erroredPinState (pinCid 0) .pin .queued) :=
+  gen_table_trackNew _ _ _ _
+example : (T.trackNewT Gen.Sem.trackNew erroredPinState (pinCid 0) .pin .queued).map (·.2) = some (some 1) := by decide
+example : T.statusT Gen.Sem.trackerStatus .unpin .inProgress = some .unpinning := by decide
+example : T.recT Gen.Sem.recoverWith .unexpectedlyUnpinned true true = some (some (.pin, true)) := by decide
 
 end CV.C05
